@@ -12,13 +12,13 @@ TRUST = ("go/packages + go/types + go/ssa + go/cfg (x/tools v0.29.0); the fpchec
 # id -> (technique, level text, design section, not-decided note)
 CHECKS = {
  "C01": ("reference-graph SCC (branch-free cycle) + parameter relevance over the monad packages (AST, go/types)",
-         "Structural necessary conditions, decided for every function of the four generated monad packages: the definitional reference graph has no branch-free cycle (a circular definition diverges on all-success inputs), every parameter of every combinator is used, and StateT bodies never reuse a state that was fed to a run (right identity of StateT); a unit function (Pure/Some/Success/Right/Done) never converts its type-parameter argument to an interface, so it cannot treat nil payloads differently (SSA value flow through moves, closures and static calls); every function of a generated monad file uses the same callees as its namesakes in the other monad packages (the derived combinators are copies of one template; 355 compared). A violation names the cycle / the parameter / the conversion / the deviating copy.",
+         "Structural necessary conditions, decided for every function of the four generated monad packages: the definitional reference graph has no branch-free cycle (a circular definition diverges on all-success inputs), every parameter of every combinator is used, and StateT bodies never reuse a state that was fed to a run (right identity of StateT); a unit function (Pure/Some/Success/Right/Done) never converts its type-parameter argument to an interface, so it cannot treat nil payloads differently (SSA value flow through moves, closures and static calls); every function of a generated monad file uses the same callees as its namesakes in the other monad packages (the derived combinators are copies of one template; 355 compared); the Applicative/Chain builders consult their operands left to right (effect-order summaries, shared with C02). A violation names the cycle / the parameter / the conversion / the deviating copy.",
          "§4 C01", "the three laws as value equalities; Seq/List/Iterator/Eval/fn0/fn1 instances"),
  "C02": ("structured success-test analysis (continuation/handler classification by type), supplier-deferral rule, recover-handler rule (AST, go/types)",
-         "Call-placement clauses decided for every success test of a Try/Option/Either operand in the root package, the monad packages and the folds: no continuation and no iterator pull on the failure side, no handler on the success side, continuations receive a value extracted from the tested operand, a fold stops at the first failed step, short-circuiting functions return the operand itself or a failure built from it alone, recover-style functions return successes untouched; supplier parameters are only invoked inside deferred literals or under a test; the five panic-capturing functions register a recover handler first, which produces a failure carrying the recovered value only when it is non-nil and never type-asserts that value (here or in a helper it is passed to); effect-order summaries (R-EFFORDER): every branch-free or test-guarded combinator consults its monadic operands in declaration order, and the methods of one builder type agree on the order of the receiver's fields and consult them before their arguments; in a fold over a cursor every path from a monadic step result to the next consultation of the cursor passes a test of that result (R-FOLDSTOP).",
+         "Call-placement clauses decided for every success test of a Try/Option/Either operand in the root package, the monad packages and the folds: no continuation and no iterator pull on the failure side, no handler on the success side, continuations receive a value extracted from the tested operand, a fold stops at the first failed step, short-circuiting functions return the operand itself or a failure built from it alone, recover-style functions return successes untouched; supplier parameters are only invoked inside deferred literals or under a test; the five panic-capturing functions register a recover handler first, which produces a failure carrying the recovered value only when it is non-nil and never type-asserts that value (here or in a helper it is passed to); effect-order summaries (R-EFFORDER): every branch-free or test-guarded combinator consults its monadic operands in declaration order, and the methods of one builder type agree on the order of the receiver's fields and consult them before their arguments; in a fold over a cursor every path from a monadic step result to the next consultation of the cursor passes a test of that result (R-FOLDSTOP); a StateT method never re-runs its receiver from a handler literal (R-RUNONCE).",
          "§4 C02", "invocation counts and global left-to-right order across a whole nested generated expression (effect-order summary not built)"),
  "C03": ("path-sensitive nil-fact dataflow on SSA over Map/Set/immutable types, discarded-update rule, exhaustiveness of node type switches",
-         "Necessary conditions on the wrappers and on result threading (the trie arithmetic itself is not decided): every call through Map.Base / Set.set / Set.getEmpty / hamt.root / mapBuilder.m is dominated by its nil test (zero value behaves as empty); no persistent update result (Updated/Removed/Incl/Excl/node set/delete …) is discarded outside explicit in-place mode; every type switch over trie nodes has a default, covers all node kinds, or (leaf-only) covers every kind without children; the iterator's depth-indexed stack has a slot for every level a 32-bit hash can produce; all node kinds cut the hash fragment with one mask and descend with one level increment, and never consult a child at its parent's level (R-FRAG); a node built for a deeper level is never returned as this level's node unless proven a leaf (R-LEVEL); every entry-adding event of set is preceded by *resized = true on every feasible path (R-RESIZED); a Set built inside a Set method carries the receiver's getEmpty factory (R-SETCTX).",
+         "Necessary conditions on the wrappers and on result threading (the trie arithmetic itself is not decided): every call through Map.Base / Set.set / Set.getEmpty / hamt.root / mapBuilder.m is dominated by its nil test (zero value behaves as empty); no persistent update result (Updated/Removed/Incl/Excl/node set/delete …) is discarded outside explicit in-place mode; every type switch over trie nodes has a default, covers all node kinds, or (leaf-only) covers every kind without children; the iterator's depth-indexed stack has a slot for every level a 32-bit hash can produce; all node kinds cut the hash fragment with one mask and descend with one level increment, and never consult a child at its parent's level (R-FRAG); a node built for a deeper level is never returned as this level's node unless proven a leaf (R-LEVEL); every entry-adding event of set is preceded by *resized = true on every feasible path (R-RESIZED); a Set built inside a Set method carries the receiver's getEmpty factory (R-SETCTX); the array node's slot counter changes only under a nil test of the slot value (R-SLOTCOUNT).",
          "§4 C03", "trie arithmetic for every history and hasher (bitmap/popcount indices, node conversions, collision nodes, the resized flag on delete)"),
  "C04": ("field-sensitive points-to analysis on SSA with interprocedural write/return/invoke summaries and bool-flag guards (E1), builder typestate rule",
          "Proves the stronger 'never writes foreign memory' for every exported function and method of the library outside the mutable surface: no store, append, copy, sort, map update or callee (through interface joins, call-backs and fold-threaded accumulators) writes an object reachable from a parameter, a global or unknown memory; writes guarded by the trie's `mutable` flag count only where true can reach them; builder methods that publish the in-place trie give it up, through a pointer receiver.",
@@ -27,13 +27,13 @@ CHECKS = {
          "Structural conditions without which some interleaving breaks single assignment / exactly-once delivery: the status cell changes only by CompareAndSwap against the pointer loaded in the same attempt; the completed case never writes; every lost CAS is retried; every case of a registration uses the call-back (invokes it with the completed value or swaps in a value built from the old list and the call-back); the completing CAS returns the captured list and Complete calls every element; no Promise/Future method writes memory it did not allocate (published listener slices are immutable); zero Promise/Future is guarded; the atomic cell is touched only through sync/atomic; between (re)loading the status pointer and swapping against it the status is decoded from that same pointer.",
          "§4 C05", "linearizability over all interleavings (schedules are not enumerated)"),
  "C06": ("must-pass-through on go/cfg, recursively over nested OnComplete/ExecuteUnsafe literals; recover-handler rule",
-         "For every promise created by a combinator that returns the derived future (19 sites): every path of the creating function completes the promise or registers a literal every path of which completes it or registers, recursively, one that does; Apply/Apply2 run the user function under a deferred recover that fails the promise with the panic value; nested subscriptions on two Future operands follow declaration order, so a failed earlier operand is reported without waiting for a later one (R-SUBORDER).",
+         "For every promise created by a combinator that returns the derived future (19 sites): every path of the creating function completes the promise or registers a literal every path of which completes it or registers, recursively, one that does; Apply/Apply2 run the user function under a deferred recover that fails the promise with the panic value; nested subscriptions on two Future operands follow declaration order, so a failed earlier operand is reported without waiting for a later one (R-SUBORDER); inside one operand's completion callback another operand is subscribed to only behind a test of the callback's Try (R-FUTSTOP).",
          "§4 C06", "value equality with the Try-level evaluation, 'never earlier', positional order of Sequence/Traverse"),
  "C09": ("mirrored-accessor-path rule, instance-parameter relevance, hash/eq component-subset rule, hash determinism deny-list (AST, go/types)",
-         "Structural conditions of component-wise equality and of hash/eq agreement: every component Eqv/Less/Compare call in eq, hash and ord applies the same accessor path to the two different operands; every instance parameter is used; for every hash.New(E, h) the instances consulted by h are a subset of those E is built from; hash functions (including those of package-level instances) use no unsafe/reflect/uintptr/%p/float bit patterns/map iteration/time/rand and no package-level state shared between callers; a container equality returns true only where equal sizes are established; an Eq over Go maps looks the other map up with the comma-ok form.",
+         "Structural conditions of component-wise equality and of hash/eq agreement: every component Eqv/Less/Compare call in eq, hash and ord applies the same accessor path to the two different operands; every instance parameter is used; for every hash.New(E, h) the instances consulted by h are a subset of those E is built from; hash functions (including those of package-level instances) use no unsafe/reflect/uintptr/%p/float bit patterns/map iteration/time/rand and no package-level state shared between callers, and do not single out the nil container unless the equality does; a container equality returns true only where equal sizes are established; an Eq over Go maps looks the other map up with the comma-ok form.",
          "§4 C09", "reflexivity/symmetry/transitivity and hash agreement as statements over all values"),
  "C10": ("one-sided-comparison rule (R-LEX), mirrored accessor paths, sort.Interface shape check (AST, go/types)",
-         "Structural necessary conditions of a strict total order / ordered permutation: every component Less test that falls through to further components is followed by the mirrored test; component calls use the same accessor path on both operands; every in-module sort.Interface keeps index order, swaps exactly i and j and reports len of the same slice; Compare results are examined by sign only; less functions are strict (no <=, no negated less); binary instances never exchange their operands; R-LEX also covers direct calls of a LessFunc value; a less-based Compare returns a non-zero constant only under the less test of the matching direction (R-TRICHOTOMY); the payload of Option/Try.Unapply is used only behind the success edge of a test of its flag (R-PAYLOAD).",
+         "Structural necessary conditions of a strict total order / ordered permutation: every component Less test that falls through to further components is followed by the mirrored test; component calls use the same accessor path on both operands; every in-module sort.Interface keeps index order, swaps exactly i and j and reports len of the same slice; Compare results are examined by sign only; less functions are strict (no <=, no negated less); binary instances never exchange their operands; R-LEX also covers direct calls of a LessFunc value; a less-based Compare returns a non-zero constant only under the less test of the matching direction (R-TRICHOTOMY); the payload of Option/Try.Unapply is used only behind the success edge of a test of its flag (R-PAYLOAD); a container comparison of package ord returns 0 only under established equal sizes.",
          "§4 C10", "transitivity/totality of leaf instances; Min/Max semantics as values"),
  "C11": ("operator/identity table over resolved monoid constructions, named-instance binding, discarded-result and fold-argument-role rules (AST, go/types)",
          "Structural necessary conditions: a monoid built from a built-in operator and a constant uses that operator's identity and an associative operator; Sum/Product/Any/All/String are bound to +,*,||,&&,+; no pure typeclass result is discarded; Combine is called (accumulator, element) in left folds and (element, rest) in FoldRight call-backs; tuple/HCons/Dual combine the same component of both operands in the stated order; every fold over a monoid consults Empty; binary instances never exchange their operands; a Combine closure over pointer/map/slice operands never writes through them nor appends onto them.",
@@ -51,10 +51,10 @@ CHECKS = {
          "For every UnmarshalJSON: the pointer receiver is rejected when nil before any dereference and every store through it happens only when decoding reported no error (or every later return is nil); for every MarshalJSON: the receiver itself is never handed to json.Marshal; fp.Option emits null exactly on the not-defined side and the payload's encoding otherwise; the decoder is never handed the target itself; no Go-syntax quoting in MarshalJSON; no UnmarshalJSON switches its decoder to UseNumber.",
          "§4 C15", "round-trip equality and agreement with encoding/json on the Mutable twin for all struct shapes"),
  "C16": ("memoiser shape rule, thunk-reference counting, trampoline call-shape rules, deferred-self-call rule, nil-fact dataflow",
-         "Run-once and trampoline clauses: memoisers run the computation only inside once.Do of a per-value sync.Once, first thing in the returned closure; Call/TailCall/MakeList hand their thunk to a memoiser and reference it nowhere else; building an Eval calls no function value eagerly; Run loops on Resume and neither calls back into Run/Get; FoldRight functions defer their self call through lazy.TailCall and never force their own recursive result (no nested trampoline); zero Eval is guarded.",
+         "Run-once and trampoline clauses: memoisers run the computation only inside once.Do of a per-value sync.Once, first thing in the returned closure; Call/TailCall/MakeList hand their thunk to a memoiser and reference it nowhere else; building an Eval calls no function value eagerly; Run loops on Resume and neither calls back into Run/Get; FoldRight functions defer their self call through lazy.TailCall and never force their own recursive result (no nested trampoline); closures of package lazy write captured variables of the enclosing function only inside once.Do (no cell shared between evaluations); zero Eval is guarded.",
          "§4 C16", "equality with strict evaluation; stack depth as a number"),
  "C17": ("stale-state (affine use) rule on go/cfg over func(S)(Try,S) literals + parameter relevance",
-         "Structural necessary conditions for lawful state threading: in every StateT-shaped literal a state that was fed to a run is never used at a point reachable from that run (handlers, later steps and the returned state see the newest state); every parameter of the statet primitives and of the StateT methods is used; every path from one run to a later run passes a test of the first run's result, or the later step is built from that result (a failed step stops the program); a Try payload is reported as the state only behind the success edge of a test of that Try.",
+         "Structural necessary conditions for lawful state threading: in every StateT-shaped literal a state that was fed to a run is never used at a point reachable from that run (handlers, later steps and the returned state see the newest state); every parameter of the statet primitives and of the StateT methods is used; every path from one run to a later run passes a test of the first run's result, or the later step is built from that result (a failed step stops the program); a Try payload is reported as the state only behind the success edge of a test of that Try; a StateT method runs its receiver at most once and never from a handler literal; the statet combinators consult their StateT operands in declaration order.",
          "§4 C17", "the state-monad equations as value equalities"),
  "C18": ("type-directed sanitising rule over clone closures + instance-parameter relevance (AST, go/types)",
          "Structural necessary conditions for deep copies: every component-instance parameter of every clone combinator is used, and in every clone closure each use of the input is cloned through a component instance (Clone call, map with a Clone method value, range, nil/len test) — nothing of the input reaches the result uncloned; a clone closure never returns the address of, or a reference held in, a captured variable (results are fresh per call).",
@@ -63,7 +63,7 @@ CHECKS = {
          "Structural conditions of linearizability: every Store on the snapshot cell happens under the map's mutex and every exit releases it; no method (nor a literal handed to copyOnWrite) writes a map loaded from the cell; read-only methods load the snapshot once; a method that reads outside the lock before copyOnWrite re-derives its decision from the literal's own parameter and returns nothing read after the critical section; the snapshot a published value derives from is read under the lock; every operation publishes at most one snapshot (no publishing call in a loop or twice on one path); the innermost condition deciding a Store, if it examines the cell, examines a value read under the lock.",
          "§4 C19", "linearizability over all interleavings"),
  "C20": ("path-sensitive nil-fact dataflow on SSA (R-NILGUARD), fabricated-return rule, must-hold lock dataflow on SSA",
-         "Three clauses: every call through Iterator.hasNext is dominated by its nil test (zero Iterator behaves as empty); no MakeIterator next() returns a fabricated zero value; in Duplicate every access to the shared queue/flag/source happens with the mutex held and every exit releases it; when hasNext keeps look-ahead state, next re-establishes it through hasNext or its refill helper; calls into the source iterator made under Duplicate's mutex are covered by a deferred Unlock (a panicking Next does not leave the mutex held); when hasNext depends on state that next updates, next does not guard its pull with the source's HasNext alone; a pulled element reaches a look-ahead variable only through a condition on the predicate's verdict (R-CACHEGUARD).",
+         "Three clauses: every call through Iterator.hasNext is dominated by its nil test (zero Iterator behaves as empty); no MakeIterator next() returns a fabricated zero value; in Duplicate every access to the shared queue/flag/source happens with the mutex held and every exit releases it; when hasNext keeps look-ahead state, next re-establishes it through hasNext or its refill helper; calls into the source iterator made under Duplicate's mutex are covered by a deferred Unlock (a panicking Next does not leave the mutex held); when hasNext depends on state that next updates, next does not guard its pull with the source's HasNext alone; a pulled element reaches a look-ahead variable only through a condition on the predicate's verdict (R-CACHEGUARD); the closure fields of an Iterator value other than the receiver are called only under an explicit nil test (R-RAWFIELD).",
          "§4 C20", "HasNext idempotence of look-ahead combinators; pull-order independence of Duplicate/Span/Partition"),
 }
 
